@@ -174,6 +174,12 @@ func observeOpt(p *packets.Packet, reads []int64, pret [][2]int, tags map[string
 		rs = append(rs, -1, 0)
 	}
 	if frames != nil && !lean {
+		// every index in range when there are few, the edges always
+		if *frames <= 24 {
+			for i := 1; i < *frames-1; i++ {
+				rs = append(rs, int64(i))
+			}
+		}
 		rs = append(rs, int64(*frames)-1, int64(*frames))
 		if *frames > 0 {
 			tags["frames>0"] = true
